@@ -1,20 +1,20 @@
 SPECIFICATION Spec
 CONSTANTS
-  N = 2
-  MaxTime = 1
-  MaxSkew = 0
+  N = 1
+  MaxTime = 13
+  MaxSkew = 1
   Budget = 1
-  Variant = "norecheck"
-  Faults <- NoFaults
-  MaxToggle = 0
-  Removal = FALSE
+  Variant = "design"
+  Faults <- WriteFaults
+  MaxToggle = 2
+  Removal = TRUE
   Remotes <- RemotesNone
   MaxWaits = 99
   HistMax = 0
   Emit = FALSE
   MaxAtt = 2
   Crashes = FALSE
-  StartBy = 1
+  StartBy = 0
   StartFrom = 0
   HealOdds = 3
   ListLag = FALSE
